@@ -180,7 +180,8 @@ impl SmartCalc {
             !is_small_date
         });
         
-        current_rules.push(RuleType::Internal {
+        /* Dates are literals: they are formed before any rule that works on dates */
+        current_rules.insert(0, RuleType::Internal {
             function_name: "small_date".to_string(),
             function: small_date as ExpressionFunc,
             tokens_list: function_items
